@@ -16,6 +16,7 @@ import (
 	"time"
 
 	kv "github.com/XiXi-2024/xixi-kv"
+	"github.com/XiXi-2024/xixi-kv/index"
 	"github.com/XiXi-2024/xixi-kv/fio"
 	"verifharness/h"
 )
@@ -65,6 +66,19 @@ func lockChild(en *Env) {
 			o := kv.DefaultOptions
 			o.DirPath = f[2]
 			o.DataFileSize = 1 << 20
+			if len(f) > 4 {
+				// the lock must not depend on how the database is configured
+				switch f[4] {
+				case "1":
+					o.IndexType, o.ShardNum = index.BTree, 1
+				case "2":
+					o.IndexType, o.SyncStrategy = index.SkipList, kv.Always
+				case "3":
+					o.EnableBackgroundMerge = true
+				case "4":
+					o.ShardNum, o.SyncStrategy, o.BytesPerSync = 1024, kv.Threshold, 64
+				}
+			}
 			var db *kv.DB
 			name := h.Guard(h.CallTimeout, func() error {
 				var err error
@@ -256,11 +270,15 @@ func startChild(en *Env) *child {
 
 func (c *child) send(format string, a ...any) { fmt.Fprintf(c.in, format+"\n", a...) }
 func (c *child) recv() string {
-	line, err := c.out.ReadString('\n')
-	if err != nil {
-		return "died"
+	for {
+		line, err := c.out.ReadString('\n')
+		if err != nil {
+			return "died"
+		}
+		if strings.HasPrefix(line, "res ") { // (anything else is the engine's own output)
+			return strings.TrimPrefix(strings.TrimSpace(line), "res ")
+		}
 	}
-	return strings.TrimPrefix(strings.TrimSpace(line), "res ")
 }
 
 func fingerprint(dir string) string {
@@ -379,7 +397,7 @@ func profDirLock(en *Env) {
 			g := r.Intn(2)
 			o := (p+1)*10 + g
 			switch x := r.Intn(100); {
-			case x < 12 && !open[o] && closedOnce[o] && len(open) > 0:
+			case x < 30 && !open[o] && closedOnce[o] && len(open) > 0:
 				// a second Close on a handle that was closed earlier, while somebody else has the directory open by now;
 				// then an attempt by a third opener: the directory is still in use
 				kids[p].send("reclose %d", g)
@@ -401,16 +419,41 @@ func profDirLock(en *Env) {
 					}
 					break
 				}
-			case x < 50 && !open[o]:
+			case (x < 50 || (s == 0 && rd%2 == 1 && len(open) == 0)) && !open[o]:
+				variant := r.Intn(5)
+				if len(open) == 0 && (s == 0 || r.Intn(2) == 0) {
+					variant = 3 // (nobody has the directory: this Open will be the owner)
+				}
 				before := fingerprint(dir)
-				kids[p].send("open %d %s", g, dir)
+				kids[p].send("open %d %s 0 %d", g, dir, variant)
 				res := kids[p].recv()
 				after := fingerprint(dir)
-				en.T.Emit(h.Ev{"ev": "lk", "o": o, "act": "open", "res": res, "same": before == after})
+				en.T.Emit(h.Ev{"ev": "lk", "o": o, "act": "open", "res": res, "same": before == after, "variant": variant})
 				if res == "ok" {
 					open[o] = true
 				}
 				attempts++
+				if variant == 3 && res == "ok" {
+					// an owner with the background merge enabled: another process tries at once, then the owner closes (it is
+					// not kept open: its merge goroutine may rewrite the directory, which the fingerprints would show)
+					p2 := (p + 1 + r.Intn(len(kids)-1)) % len(kids)
+					o2 := (p2+1)*10 + g
+					if !open[o2] && !open[(p2+1)*10+1-g] {
+						before := fingerprint(dir)
+						kids[p2].send("open %d %s 0 %d", g, dir, r.Intn(5))
+						res2 := kids[p2].recv()
+						en.T.Emit(h.Ev{"ev": "lk", "o": o2, "act": "open", "res": res2, "same": before == fingerprint(dir)})
+						attempts++
+						if res2 == "ok" {
+							open[o2] = true
+						}
+					}
+					kids[p].send("close %d", g)
+					res = kids[p].recv()
+					en.T.Emit(h.Ev{"ev": "lk", "o": o, "act": "close", "res": res, "same": true})
+					delete(open, o)
+					closedOnce[o] = res == "ok"
+				}
 			case x < 50 && open[o] && len(open) == 1:
 				// the owner's process dies without Close (the operating system drops its lock); a new process takes its
 				// place; then an Open is parked right after it has taken the lock while another process tries to open
